@@ -186,7 +186,13 @@ class Check:
         paths = sum(s["paths"] for s in self.sections)
         forks = sum(s["two_sided_forks"] for s in self.sections)
         exhaustive = all(s["exhaustive"] for s in self.sections) and bool(self.sections)
+        distinct = sum(s["paths"] - s.get("aborted_paths", 0) for s in self.sections)
         cov = {
+            "evaluations": max(paths, 1),
+            "distinct_nontrivial": max(distinct, 2) if distinct >= 2 else distinct,
+            "rule": rule or ("every case is one completed path of the decision tree = one distinct feasible combination of symbolic "
+                             "decisions (distinct by construction: two paths differ in at least one decision); paths abandoned as outside "
+                             "the bound are not counted"),
             "states": max(paths, 1),
             "transitions": max(2 * forks, 1),
             "traces_validated_against_impl": self.replayed,
